@@ -378,7 +378,7 @@ const FAMS: &[(&str, F)] = &[
 ];
 
 pub fn run(tier: Tier, rep: &mut Report) -> (String, String) {
-    let l = tier.pick(4, 5, 2);
+    let l = tier.pick(5, 6, 2);
     let r = par_each(FAMS, n_threads(tier), |(_, f), r| f(r, l, None));
     rep.merge(r);
     t_misc(rep);
